@@ -17,7 +17,7 @@ ALLOWED_AXIOMS = ()
 
 def gen_history(rng, n_steps):
     """A program, a root call and a sequence of edits / reverts / restarts / in-process variable changes."""
-    prog = P.gen_program(rng)
+    prog = P.gen_program(rng, allow_classes=(rng.random() < 0.34))      # every third pipeline may contain plain classes
     call = P.root_call(prog, rng)
     versions = [copy.deepcopy(prog)]
     events = [("prog", prog), ("act", call)]
